@@ -17,4 +17,6 @@ def run(ctx):
     obs += cp.separator_condition_rule(ctx, 'C19')
     obs += cp.step_rules(ctx, 'C19')
     obs += cp.source_token_rules(ctx, 'C19')
+    # every rewrite works on tokens: no source text is copied into the output (wave 10; shared by the stylesheet packs)
+    obs += cp.tokens_only_rule(ctx, 'C19')
     return obs
